@@ -12,7 +12,7 @@ TABLE = {
     "C07": (["gaps", "corners"], ["eras", "admission", "bank"], [1, 6, 7, 9], True, "balances, execution height and converted amounts"),
     "C08": (["malformed", "dups", "corners"], ["eras", "top100", "zerocollide", "bankmixed"], [13, 14], False, "which blocks apply"),
     "C09": (["gaps"], ["eras", "admission"], [1, 6, 7], True, "balances and converted amounts (pricing)"),
-    "C11": (["eras", "top100"], ["rates", "staking", "zeroing"], [1, 6, 7, 11, 12], True, "PEG/pFCT balances, coinbase and burn history, pn_winners, pn_grade"),
+    "C11": (["eras", "corners"], ["top100", "rates", "staking", "zeroing"], [1, 6, 7, 11, 12], True, "PEG/pFCT balances, coinbase and burn history, pn_winners, pn_grade"),
     "C12": (["rates", "corners"], ["eras", "gaps", "staking"], [4, 6], True, "pn_rate rows and batch status"),
     "C13": (["admission", "corners"], ["eras", "rates"], [1, 6], True, "balances and executed codes"),
     "C14": (["staking"], ["eras", "zerocollide"], [1, 2, 3, 6, 7], True, "balances, snapshots and staking coinbase rows"),
